@@ -91,3 +91,15 @@ Theorem C01_chain_conserves : forall is_name cid_of tx_hash vm sig_ok cfg,
   nonneg s' /\ supply s' = supply s.
 Proof. exact chain_conserves. Qed.
 Print Assumptions C01_chain_conserves.
+
+From Verif Require Import Ledger.Refuted.
+(** F24: without the repair (c_fix_f24 = false) and without the plain-sender hypothesis, conservation
+    fails: a fee-delegation transaction sent through a name that resolves to the called contract
+    itself mints its fee.  (Reproduced on the real executor by corpus tag f24.) *)
+Theorem C01_exec_tx_supply_self_feedeleg_refuted :
+  exists is_name cid_of tx_hash vm cfg bno s t o s',
+    c_fix_f24 cfg = false /\ nonneg s /\ 0 <= t_amount t /\ 0 <= c_gas_price cfg /\ c_fix_f18 cfg = true /\
+    exec_tx is_name cid_of tx_hash vm cfg bno s t = (o, s') /\ o = Applied /\
+    supply s' + bp_reward s' = supply s + bp_reward s + 2000000000000000.
+Proof. exact exec_tx_supply_self_feedeleg_refuted. Qed.
+Print Assumptions C01_exec_tx_supply_self_feedeleg_refuted.
